@@ -8,6 +8,7 @@ import (
 
 	sdkmath "cosmossdk.io/math"
 	sdk "github.com/cosmos/cosmos-sdk/types"
+	"github.com/ethereum/go-ethereum/common"
 
 	"mods.irisnet.org/modules/token"
 	tokenkeeper "mods.irisnet.org/modules/token/keeper"
@@ -94,12 +95,38 @@ func (m *tkMod) newEnv() *lib.Env {
 	m.k[e] = k
 	return e
 }
-func (m *tkMod) setup(e *lib.Env) {}
+// a second possible fee token, of scale 6, issued under the default parameters
+func (m *tkMod) setup(e *lib.Env) {
+	out := e.Deliver(&tokenv1.MsgIssueToken{Symbol: "feetok", Name: "fee token", Scale: 6, MinUnit: "ufeetok",
+		InitialSupply: 100000000000, MaxSupply: 1000000000000, Mintable: true, Owner: e.Actors[0].String()})
+	if !out.OK() {
+		panic("token setup: " + out.Err)
+	}
+}
 func (m *tkMod) initGenesis(e *lib.Env) lib.Outcome {
 	gs := tokenv1.GenesisState{Params: tkGo(m.p)}
 	return e.Try(func(ctx sdk.Context) error { token.InitGenesis(ctx, *m.k[e], gs); return nil })
 }
+func (m *tkMod) genesisStages(e *lib.Env) (int, int) {
+	gs := tokenv1.GenesisState{Params: tkGo(m.p)}
+	vg, _ := errCode(func() error { return tokenv1.ValidateGenesis(gs) })
+	cctx, _ := e.Ctx.CacheContext()
+	sp, _ := errCode(func() error { return m.k[e].SetParams(cctx, gs.Params) })
+	return vg, sp
+}
 func (m *tkMod) stored(e *lib.Env) string { return tkTerm(m.k[e].GetParams(e.Ctx)) }
+
+// feeToken: scale of the token named by the stored base fee's denom and the payer's balance in its min unit
+// (scale 0 / the stake balance when that token does not exist: the model rejects before using them).
+func (m *tkMod) feeToken(e *lib.Env) (int64, sdkmath.Int) {
+	fee := m.k[e].GetParams(e.Ctx).IssueTokenBaseFee
+	if sdk.ValidateDenom(fee.Denom) == nil {
+		if t, err := m.k[e].GetToken(e.Ctx, fee.Denom); err == nil {
+			return int64(t.GetScale()), e.Balance(e.Actors[0], t.GetMinUnit())
+		}
+	}
+	return 0, e.Balance(e.Actors[0], "stake")
+}
 
 // feeFactor restates keeper.calcFeeFactor (unexported): (ln(len)/ln 3)^4 printed with 2 decimals.
 func feeFactor(symbol string) *big.Int {
@@ -125,7 +152,8 @@ func (m *tkMod) op(e *lib.Env, st Step) (string, lib.Outcome) {
 		extra := int(bi(st.N[0]).Int64())
 		m.n[e]++
 		sym := tkSymbol(m.n[e], extra)
-		term := lib.App("TkIssue", lib.ZB(feeFactor(sym)), lib.ZI(e.Balance(a0, "stake")))
+		scale, feeBal := m.feeToken(e)
+		term := lib.App("TkIssue", lib.ZB(feeFactor(sym)), lib.Z(scale), lib.ZI(feeBal))
 		out := e.Deliver(&tokenv1.MsgIssueToken{Symbol: sym, Name: "n" + sym, Scale: 6, MinUnit: "u" + sym,
 			InitialSupply: 1000, MaxSupply: 1000000000, Mintable: true, Owner: a0.String()})
 		return term, out
@@ -144,7 +172,8 @@ func (m *tkMod) op(e *lib.Env, st Step) (string, lib.Outcome) {
 			out := e.Deliver(&tokenv1.MsgMintToken{Coin: sdk.NewCoin("ukaaq", sdkmath.NewIntFromBigInt(bi(st.N[0]))), Owner: a0.String()})
 			return "TkOther", out
 		}
-		term := lib.App("TkMint", lib.ZB(feeFactor(sym)), lib.ZI(e.Balance(a0, "stake")))
+		scale, feeBal := m.feeToken(e)
+		term := lib.App("TkMint", lib.ZB(feeFactor(sym)), lib.Z(scale), lib.ZI(feeBal))
 		if tok, err := k.GetToken(e.Ctx, sym); err != nil || !tok.GetOwner().Equals(a0) {
 			term = "TkOther" // ownership was transferred away: the mint is rejected before any fee is computed
 		}
@@ -159,7 +188,40 @@ func (m *tkMod) op(e *lib.Env, st Step) (string, lib.Outcome) {
 			break
 		}
 	}
+	hasContract := false
+	var contract common.Address
+	if tok, err := k.GetToken(e.Ctx, sym); err == nil && len(tok.GetContract()) > 0 {
+		hasContract, contract = true, common.HexToAddress(tok.GetContract())
+	}
+	exists := k.HasSymbol(e.Ctx, sym)
+	evmUser := common.HexToAddress("0x00000000000000000000000000000000000000bb") // not an account of the chain
 	switch st.K {
+	case "deploy": // MsgDeployERC20 by the authority for the most recent token
+		term := "TkOther"
+		if exists {
+			term = lib.App("TkDeploy", lib.B(hasContract))
+		}
+		return term, e.Deliver(&tokenv1.MsgDeployERC20{Symbol: sym, Name: "n" + sym, Scale: 6, MinUnit: "u" + sym, Authority: govAddr})
+	case "swap_to":
+		amt := sdkmath.NewIntFromBigInt(bi(st.N[0]))
+		term := "TkOther"
+		if exists {
+			term = lib.App("TkSwapTo", lib.B(hasContract), lib.ZI(amt), lib.ZI(e.Balance(a0, "u"+sym)))
+		}
+		return term, e.Deliver(&tokenv1.MsgSwapToERC20{Amount: sdk.NewCoin("u"+sym, amt), Sender: a0.String(), Receiver: evmUser.Hex()})
+	case "swap_from":
+		amt := sdkmath.NewIntFromBigInt(bi(st.N[0]))
+		term := "TkOther"
+		if exists {
+			ebal := big.NewInt(0)
+			if hasContract {
+				if b, err := k.BalanceOf(e.Ctx, contract, evmUser); err == nil {
+					ebal = b
+				}
+			}
+			term = lib.App("TkSwapFrom", lib.B(hasContract), lib.ZI(amt), lib.ZB(ebal))
+		}
+		return term, e.Deliver(&tokenv1.MsgSwapFromERC20{WantedAmount: sdk.NewCoin("u"+sym, amt), Sender: sdk.AccAddress(evmUser.Bytes()).String(), Receiver: a0.String()})
 	case "edit":
 		return "TkOther", e.Deliver(&tokenv1.MsgEditToken{Symbol: sym, Name: "renamed", MaxSupply: bi(st.N[0]).Uint64(), Mintable: "true", Owner: a0.String()})
 	case "burn":
@@ -180,9 +242,15 @@ func tkSweep() []func(*TKParams) {
 		v := v
 		fs = append(fs, func(p *TKParams) { p.Fee.A = v })
 	}
-	for _, d := range []int{0, 2, 3} {
+	for _, d := range []int{0, 2, 3, 5} {
 		d := d
 		fs = append(fs, func(p *TKParams) { p.Fee.D = d })
+	}
+	// the fee token of scale 6: small, large and the largest validated amount (2^195 - 1), and just beyond
+	b195 := new(big.Int).Lsh(big.NewInt(1), 195)
+	for _, a := range []string{"1", "3", "60000", new(big.Int).Lsh(big.NewInt(1), 150).String(), new(big.Int).Sub(b195, big.NewInt(1)).String(), b195.String()} {
+		a := a
+		fs = append(fs, func(p *TKParams) { p.Fee = Coin{5, sp(a)} })
 	}
 	return fs
 }
@@ -194,6 +262,7 @@ func genTK(r *lib.Rand, h *History, i int) {
 		h.TK = &p
 		h.Via = sweepVia(i)
 		h.Steps = []Step{{"issue", []string{"0"}}, {"mint", []string{"1000"}}, {"issue", []string{fmt.Sprint(1 + r.Intn(5))}}, {"mint", []string{"5"}},
+			{"swap_to", []string{"100"}}, {"deploy", nil}, {"swap_to", []string{"100"}}, {"swap_from", []string{"40"}}, {"swap_from", []string{"100"}}, {"deploy", nil},
 			{"edit", []string{"2000000"}}, {"burn", []string{"10"}}, {"transfer_owner", nil}}
 		return
 	}
@@ -209,6 +278,9 @@ func genTK(r *lib.Rand, h *History, i int) {
 			p.Fee.A = genAmount(r, "60000")
 		case 2:
 			p.Fee.D = genDenom(r, 1)
+			if r.Chance(1, 2) {
+				p.Fee.D = 5
+			}
 		case 3:
 			p.Ratio = genRate(r, "100000000000000000")
 		case 4:
@@ -221,7 +293,16 @@ func genTK(r *lib.Rand, h *History, i int) {
 	n := 3 + r.Intn(4)
 	h.Steps = append(h.Steps, Step{"issue", []string{fmt.Sprint(r.Intn(6))}})
 	for i := 0; i < n; i++ {
-		if r.Chance(1, 5) {
+		if r.Chance(1, 4) {
+			switch r.Intn(3) {
+			case 0:
+				h.Steps = append(h.Steps, Step{"deploy", nil})
+			case 1:
+				h.Steps = append(h.Steps, Step{"swap_to", []string{big.NewInt(r.Range(1, 2000)).String()}})
+			case 2:
+				h.Steps = append(h.Steps, Step{"swap_from", []string{big.NewInt(r.Range(1, 2000)).String()}})
+			}
+		} else if r.Chance(1, 5) {
 			switch r.Intn(3) {
 			case 0:
 				h.Steps = append(h.Steps, Step{"edit", []string{big.NewInt(r.Range(2000, 2000000000)).String()}})
